@@ -385,6 +385,19 @@ def make_inits(day: dt.date):
     s4 = B.St(path=str(p4), day=day, hist=[], guards=g4, extra={"init": "after-refused-reindex"})
     s4.key = H.digest([D.state_digest(p4, day), sorted(g4.items())])
     inits.append(s4)
+    # ONE plain reindex had to write a ZID back into a page and, in the same run, saw that
+    # another page had vanished (and that a new page whose notes carry ZIDs had appeared)
+    p5 = Z.copy_zdir(base, tag="c06i")
+    g5: dict = {}
+    apply_edit(p5, "add_note_a", g5)
+    apply_edit(p5, "del_page_b", g5)
+    apply_edit(p5, "add_page_c", g5)
+    r = Z.db_reindex(p5, day)
+    if not Z.cli_ok(r):
+        raise H.HarnessError("initial reindex failed: " + r.err[-500:])
+    s5 = B.St(path=str(p5), day=day, hist=[], guards=g5, extra={"init": "after-write-back-and-page-changes-in-one-run"})
+    s5.key = H.digest([D.state_digest(p5, day), sorted(g5.items())])
+    inits.append(s5)
     return inits
 
 
@@ -401,10 +414,10 @@ def run(ctx: F.Ctx):
         total.merge(rep)
     meta = {
         "rule": (
-            "BFS from 5 initial states (indexed four-page directory; same with a ZID-less note "
+            "BFS from 6 initial states (indexed four-page directory; same with a ZID-less note "
             "pending; same after an earlier stamped edit; same after a page was deleted and the "
             "index followed; same after a new page was added, the last page broken and a plain "
-            "reindex refused) over 18 events: edit a body, change a "
+            "reindex refused; same after one run that wrote a ZID back, dropped a vanished page and took in a new page) over 18 events: edit a body, change a "
             "todo's kind, add a ZID-less note, delete a note, move a note between pages whose header "
             "blocks give one property different values, add a page, "
             "delete a page, rename a page, bring the vanished page back byte-identical, edit title-line tags, edit a section header, drop the "
@@ -416,7 +429,7 @@ def run(ctx: F.Ctx):
             f"structural invariants of M3, and {len(QUERIES)} queries answered identically by both. Non-trivial "
             "= judged states whose history contains at least one edit."
         ),
-        "bounds": {"depth": depth, "depth_from_derived_initial_states": depth - 1, "events": EVENTS, "initial_states": 5, "frozen_day": day.isoformat()},
+        "bounds": {"depth": depth, "depth_from_derived_initial_states": depth - 1, "events": EVENTS, "initial_states": 6, "frozen_day": day.isoformat()},
         "assumptions": ["edits are the listed deterministic text transformations of one small directory",
                         "states reached by a path-restricted reindex are judged at the next plain reindex, as the statement says"],
         "exhaustive": True,
